@@ -13,6 +13,7 @@ mod scen_dns;
 mod scen_inject;
 mod scen_neigh;
 mod scen_peer;
+mod scen_slaac;
 mod scen_tcp;
 mod tap;
 mod tape;
@@ -76,6 +77,10 @@ fn neigh_scn(t: &mut Tape, p: Props, thorough: bool, trace: bool) -> Outcome {
     scen_neigh::run(t, p, thorough, trace)
 }
 
+fn slaac_scn(t: &mut Tape, p: Props, thorough: bool, trace: bool) -> Outcome {
+    scen_slaac::run(t, p, thorough, trace)
+}
+
 fn dhcp_scn(t: &mut Tape, p: Props, thorough: bool, trace: bool) -> Outcome {
     scen_dhcp::run(t, p, thorough, trace)
 }
@@ -136,6 +141,8 @@ fn defs() -> &'static [CheckDef] {
                     Scen { name: "dhcp-client", weight: 1, run: dhcp_scn },
                     Scen { name: "dns-resolver", weight: 1, run: dns_scn },
                     Scen { name: "6lowpan-pair", weight: 2, run: sixlo_scn },
+                    Scen { name: "slaac-node", weight: 1, run: slaac_scn },
+                    Scen { name: "neighbour-population", weight: 1, run: neigh_scn },
                 ],
                 rule: "every call into the library runs under catch_unwind and a watchdog; one run = one seeded scenario execution (adversarial frame sequences, scripted TCP peers, two-node faulty links); non-trivial per scenario rule; distinct = event-log hash",
                 assumptions: vec!["build profile: release with debug-assertions and overflow-checks (what a development build of a user sees)"],
@@ -264,6 +271,8 @@ fn defs() -> &'static [CheckDef] {
                     Scen { name: "dns-resolver", weight: 1, run: dns_scn },
                     Scen { name: "dhcp-client", weight: 1, run: dhcp_scn },
                     Scen { name: "6lowpan-pair", weight: 2, run: sixlo_scn },
+                    Scen { name: "slaac-node", weight: 1, run: slaac_scn },
+                    Scen { name: "neighbour-population", weight: 1, run: neigh_scn },
                     Scen { name: "adversary-any-medium", weight: 3, run: adv_any },
                     Scen { name: "injector", weight: 2, run: injector },
                 ],
@@ -288,6 +297,8 @@ fn defs() -> &'static [CheckDef] {
                     Scen { name: "dns-resolver", weight: 1, run: dns_scn },
                     Scen { name: "dhcp-client", weight: 1, run: dhcp_scn },
                     Scen { name: "6lowpan-pair", weight: 2, run: sixlo_scn },
+                    Scen { name: "slaac-node", weight: 1, run: slaac_scn },
+                    Scen { name: "neighbour-population", weight: 1, run: neigh_scn },
                     Scen { name: "adversary-any-medium", weight: 3, run: adv_any },
                     Scen { name: "injector", weight: 2, run: injector },
                 ],
@@ -301,8 +312,8 @@ fn defs() -> &'static [CheckDef] {
             CheckDef {
                 id: "C13",
                 props: Props::of(&["C13"]),
-                scens: vec![Scen { name: "tcp-pair-liveness", weight: 2, run: tcp_liveness }, Scen { name: "dgram-pair-exact", weight: 1, run: dgram_exact }, Scen { name: "dgram-pair-frag", weight: 1, run: dgram_frag }],
-                rule: "early-poll probes (no frame, no socket call since the last poll) at tape-chosen instants before poll_at; idle-poll deadline check after every frame-less poll; distinct = event-log hash",
+                scens: vec![Scen { name: "tcp-pair-liveness", weight: 2, run: tcp_liveness }, Scen { name: "dgram-pair-exact", weight: 1, run: dgram_exact }, Scen { name: "dgram-pair-frag", weight: 1, run: dgram_frag }, Scen { name: "slaac-node", weight: 2, run: slaac_scn }],
+                rule: "early-poll probes (no frame, no socket call since the last poll) at tape-chosen instants before poll_at (or up to 30 s later when poll_at is None); idle-poll deadline check after every frame-less poll; two-node TCP / UDP+ICMP / fragmenting runs and a SLAAC-enabled node with a connecting TCP socket against a scripted router (timely / late / silent / unsolicited advertisements, lifetimes 0 .. infinity); distinct = event-log hash",
                 assumptions: vec!["IGMP/MLD report timers are outside the claim"],
                 real: REAL,
                 stub: STUB,
